@@ -609,6 +609,66 @@ fn henry_model_family<R: Residual + 'static>(fam: &str, eos: &Arc<R>, order: &[u
     }
 }
 
+
+/// Correspondence of `Components::subset` with the index model ParamLookup.subset_pure: `plan["subset"]` lists, for index lists in any order and
+/// with repetitions, which parent component must sit at each position of the sub-model (evaluated by coqc); observed through the per-component
+/// molar weight (residual models) and ln Lambda^3 (ideal-gas models)
+fn subset_model(plan: &Value) -> Value {
+    use feos::ideal_gas::{Dippr, DipprRecord, Joback, JobackRecord};
+    use feos_core::parameter::{Identifier, PureRecord};
+    use feos_core::{EquationOfState, IdealGas, Molarweight, ReferenceSystem};
+    let (mut fails, mut count) = (Vec::new(), 0usize);
+    let mut models = Vec::new();
+    let empty = Vec::new();
+    let lists: Vec<(usize, Vec<usize>, Vec<usize>)> = plan["subset"].as_array().unwrap_or(&empty).iter().map(|e| {
+        let g = |k: &str| e[k].as_array().unwrap().iter().map(|v| v.as_u64().unwrap() as usize).collect::<Vec<_>>();
+        (e["n"].as_u64().unwrap() as usize, g("idx"), g("parents"))
+    }).collect();
+    let mut cmp = |model: &str, obs: &str, idx: &[usize], parents: &[usize], got: Vec<f64>, parent: &[f64], count: &mut usize| {
+        if got.len() != parents.len() {
+            fails.push(json!({"model": model, "idx": idx, "position": null, "observable": "number of components", "got": got.len(), "parent_component": null, "expected": parents.len()}));
+            return;
+        }
+        for (a, &pa) in parents.iter().enumerate() {
+            *count += 1;
+            if got[a].to_bits() != parent[pa].to_bits() {
+                fails.push(json!({"model": model, "idx": idx, "position": a, "observable": obs, "got": got[a], "parent_component": pa, "expected": parent[pa]}));
+            }
+        }
+    };
+    for cfg in configs::all(true).into_iter().chain(configs::literal()) {
+        let mw = cfg.model.molar_weight().to_reduced().to_vec();
+        // (the observable must tell the components apart)
+        if (0..mw.len()).any(|i| (0..i).any(|j| mw[i] == mw[j])) {
+            continue;
+        }
+        models.push(cfg.name.clone());
+        for (n, idx, parents) in lists.iter().filter(|l| l.0 == cfg.ncomp) {
+            let _ = n;
+            let sub = cfg.model.subset(idx);
+            cmp(&cfg.name, "molar weight", idx, parents, sub.molar_weight().to_reduced().to_vec(), &mw, &mut count);
+        }
+    }
+    // equations of state with an ideal-gas part: both halves
+    let jrec = |i: usize| PureRecord::new(Identifier::default(), 1.0 + i as f64, JobackRecord::new(25.0 + 8.0 * i as f64, 0.12 - 0.02 * i as f64, 3e-5 + 1e-5 * i as f64, -2e-8, 4e-12));
+    let drec = |i: usize| PureRecord::new(Identifier::default(), 1.0 + i as f64, DipprRecord::eq100(&[30000.0 + 4000.0 * i as f64, 80.0 + 10.0 * i as f64, 0.05]));
+    let pr = Arc::new(PengRobinson::new(Arc::new(configs::peng_robinson_params_idx(&[0, 1, 2]))));
+    let ej = EquationOfState::new(Arc::new(Joback::from_records((0..3).map(jrec).collect(), None).unwrap()), pr.clone());
+    let ed = EquationOfState::new(Arc::new(Dippr::from_records((0..3).map(drec).collect(), None).unwrap()), pr.clone());
+    let (lj, ld) = (ej.ideal_gas.ln_lambda3(350.0).to_vec(), ed.ideal_gas.ln_lambda3(350.0).to_vec());
+    let mwp = pr.molar_weight().to_reduced().to_vec();
+    models.push("EquationOfState<Joback, PengRobinson>".into());
+    models.push("EquationOfState<Dippr, PengRobinson>".into());
+    for (_, idx, parents) in lists.iter().filter(|l| l.0 == 3) {
+        let (sj, sd) = (ej.subset(idx), ed.subset(idx));
+        cmp("EquationOfState<Joback, PengRobinson> (ideal-gas part)", "ln Lambda^3 at 350 K", idx, parents, sj.ideal_gas.ln_lambda3(350.0).to_vec(), &lj, &mut count);
+        cmp("EquationOfState<Joback, PengRobinson> (residual part)", "molar weight", idx, parents, sj.residual.molar_weight().to_reduced().to_vec(), &mwp, &mut count);
+        cmp("EquationOfState<Dippr, PengRobinson> (ideal-gas part)", "ln Lambda^3 at 350 K", idx, parents, sd.ideal_gas.ln_lambda3(350.0).to_vec(), &ld, &mut count);
+        cmp("EquationOfState<Dippr, PengRobinson> (residual part)", "molar weight", idx, parents, sd.residual.molar_weight().to_reduced().to_vec(), &mwp, &mut count);
+    }
+    json!({"comparisons": count, "models": models, "failures": fails})
+}
+
 fn henry_model(plan_path: &str) -> Value {
     let plan: Value = serde_json::from_str(&std::fs::read_to_string(plan_path).expect("plan file")).expect("plan json");
     let (mut fails, mut count, mut skipped) = (Vec::new(), 0usize, 0usize);
@@ -781,7 +841,8 @@ fn main() {
     let cli = feos_verif::cli::Cli::parse("/verif/coq/gen/C09");
     if let Some(plan) = cli.opt("--plan") {
         // second stage: replay the plan evaluated from the Coq model (HenryIdxC09.v) on the public API
-        cli.write_impl(&json!({"henry_model": henry_model(&plan)}));
+        let pv: Value = serde_json::from_str(&std::fs::read_to_string(&plan).expect("plan file")).expect("plan json");
+        cli.write_impl(&json!({"henry_model": henry_model(&plan), "subset_model": subset_model(&pv)}));
         return;
     }
     let res = run(&cli.out, &cli.tier, cli.seed, cli.opt("--only"));
